@@ -572,3 +572,154 @@ Proof.
   { intros a x w [-> | ->] Hx Hw; [lra|]. pose proof (Qmult_le_0_compat x w Hx Hw). lra. }
   apply (Qplus_le_compat 0 _ 0); apply HM; try lra; match goal with |- context [Nat.eqb ?a ?b] => destruct (Nat.eqb a b); auto end.
 Qed.
+
+(* ------------------------------------------------------------------------------------------ *)
+(* the element-wise loss and the priorities                                                     *)
+(* ------------------------------------------------------------------------------------------ *)
+Lemma dotf_ext_list f : forall a a', length a = length a' -> (forall i, nth i a 0 == nth i a' 0) ->
+  dotf f a == dotf f a'.
+Proof.
+  intros a. revert f. induction a; intros f a' L H; destruct a'; try discriminate; [reflexivity|].
+  cbn [dotf]. rewrite (IHa (fun i => f (S i)) a') by (try (cbn in L; lia); intro i; apply (H (S i))).
+  pose proof (H O) as H0. cbn [nth] in H0. rewrite H0. reflexivity.
+Qed.
+
+Lemma dot_ext_l a a' b : length a = length a' -> (forall i, nth i a 0 == nth i a' 0) -> dot a b == dot a' b.
+Proof. intros L H. rewrite !dot_dotf. apply dotf_ext_list; auto. Qed.
+
+(* cross-entropy of the projection of one sampled row against the online log-distribution of the action taken *)
+Definition ce_row (c : cfg) (g : Q) (s : sample) : Q := ce (project_row c g (to_trans c s)) (taken_logp s).
+
+Lemma Forall2_indexed_from {T} (R : Q -> T -> Prop) (F : nat * T -> Q) : forall (l : list T) s,
+  (forall k x, nth_error l k = Some x -> R (F ((s + k)%nat, x)) x) ->
+  Forall2 R (map F (combine (seq s (length l)) l)) l.
+Proof.
+  induction l; intros s H; cbn [length seq combine map]; constructor.
+  - specialize (H O a eq_refl). rewrite Nat.add_0_r in H. exact H.
+  - apply IHl. intros k x Hk. replace (S s + k)%nat with (s + S k)%nat by lia. apply H. exact Hk.
+Qed.
+
+Lemma dqn_loss_spec c g ss : valid c ->
+  exists L, dqn_loss c g ss = Some L /\ Forall2 (fun x s => x == ce_row c g s) L ss.
+Proof.
+  intro V. unfold dqn_loss.
+  pose proof (project_flat_some c g (map (to_trans c) ss) V) as H. rewrite H.
+  eexists. split; [reflexivity|]. unfold indexed.
+  apply Forall2_indexed_from. intros k s Hk. cbn [fst snd plus]. unfold ce_row, ce.
+  assert (Hk' : nth_error (map (to_trans c) ss) k = Some (to_trans c s)) by (apply map_nth_error; auto).
+  assert (Hlt : (k < length (map (to_trans c) ss))%nat) by (apply nth_error_Some; congruence).
+  apply Qopp_comp. apply dot_ext_l.
+  - rewrite (row_slice_length c g _ _ k H Hlt), project_row_length; auto.
+  - intro i. apply (rows_independent_lemma c g _ _ k (to_trans c s) i V H Hk').
+Qed.
+
+Lemma Forall2_map_eps (eps : Q) {T} (f : T -> Q) : forall L (l : list T),
+  Forall2 (fun x s => x == f s) L l -> Forall2 (fun x s => x == f s + eps) (map (fun x => x + eps) L) l.
+Proof. induction 1; cbn [map]; constructor; auto. rewrite H. reflexivity. Qed.
+
+Lemma Forall2_zipadd {T U} (f : T -> Q) (h : U -> Q) : forall a l1, Forall2 (fun x s => x == f s) a l1 ->
+  forall b l2, Forall2 (fun y s => y == h s) b l2 ->
+  Forall2 (fun x p => x == f (fst p) + h (snd p)) (zipadd a b) (combine l1 l2).
+Proof.
+  induction 1; intros b l2 H2; [destruct b; constructor|].
+  inversion H2; subst; cbn [zipadd combine]; constructor.
+  - cbn [fst snd]. rewrite Qred_correct, H, H1. reflexivity.
+  - apply IHForall2; auto.
+Qed.
+
+Lemma priority_is_ce_lemma c gamma n eps ss1 ssn : valid c ->
+  let gn := Qpower gamma (Z.of_nat n) in
+  (exists P, learn_priorities c gamma n eps OneStep ss1 ssn = Some P /\
+             Forall2 (fun x s => x == ce_row c gamma s + eps) P ss1) /\
+  (exists P, learn_priorities c gamma n eps NStep ss1 ssn = Some P /\
+             Forall2 (fun x s => x == ce_row c gn s + eps) P ssn) /\
+  (exists P, learn_priorities c gamma n eps Combined ss1 ssn = Some P /\
+             Forall2 (fun x p => x == ce_row c gamma (fst p) + ce_row c gn (snd p) + eps) P (combine ss1 ssn)).
+Proof.
+  intros V gn. unfold learn_priorities. fold gn.
+  destruct (dqn_loss_spec c gamma ss1 V) as (L1 & E1 & F1).
+  destruct (dqn_loss_spec c gn ssn V) as (Ln & En & Fn).
+  rewrite E1, En. cbn [option_map]. repeat split; eexists; (split; [reflexivity|]).
+  - apply Forall2_map_eps; auto.
+  - apply Forall2_map_eps; auto.
+  - apply (Forall2_map_eps eps (fun p => ce_row c gamma (fst p) + ce_row c gn (snd p))).
+    apply Forall2_zipadd; auto.
+Qed.
+
+(* ------------------------------------------------------------------------------------------ *)
+(* the greedy next action                                                                       *)
+(* ------------------------------------------------------------------------------------------ *)
+Lemma argmax_from_inv : forall l pre best bi,
+  (bi < length pre)%nat -> nth bi pre 0 = best ->
+  (forall j, (j < length pre)%nat -> nth j pre 0 <= best) ->
+  (forall j, (j < bi)%nat -> nth j pre 0 < best) ->
+  let r := argmax_from best bi (length pre) l in
+  (r < length (pre ++ l))%nat /\
+  (forall j, (j < length (pre ++ l))%nat -> nth j (pre ++ l) 0 <= nth r (pre ++ l) 0) /\
+  (forall j, (j < r)%nat -> nth j (pre ++ l) 0 < nth r (pre ++ l) 0).
+Proof.
+  induction l; intros pre best bi Hb Hn Hle Hlt; cbn [argmax_from].
+  - rewrite app_nil_r. cbv zeta. rewrite Hn. repeat split; auto.
+  - assert (LP : length (pre ++ [a]) = S (length pre)) by (rewrite app_length; cbn; lia).
+    assert (EA : pre ++ a :: l = (pre ++ [a]) ++ l) by (rewrite <- app_assoc; reflexivity).
+    assert (NA : nth (length pre) (pre ++ [a]) 0 = a) by (rewrite app_nth2, Nat.sub_diag by lia; reflexivity).
+    destruct (Qle_bool a best) eqn:E.
+    + apply Qle_bool_true in E. rewrite EA, <- LP. apply IHl.
+      * lia.
+      * rewrite app_nth1 by lia. exact Hn.
+      * intros j Hj. rewrite LP in Hj. destruct (Nat.eq_dec j (length pre)) as [->|Hne].
+        -- rewrite NA. exact E.
+        -- rewrite app_nth1 by lia. apply Hle. lia.
+      * intros j Hj. rewrite app_nth1 by lia. apply Hlt. exact Hj.
+    + apply Qle_bool_false in E. rewrite EA, <- LP. apply IHl.
+      * lia.
+      * exact NA.
+      * intros j Hj. rewrite LP in Hj. destruct (Nat.eq_dec j (length pre)) as [->|Hne].
+        -- rewrite NA. lra.
+        -- rewrite app_nth1 by lia. assert (nth j pre 0 <= best) by (apply Hle; lia). lra.
+      * intros j Hj. rewrite app_nth1 by lia. assert (nth j pre 0 <= best) by (apply Hle; lia). lra.
+Qed.
+
+Lemma argmax_first_spec l : l <> [] ->
+  let r := argmax_first l in
+  (r < length l)%nat /\ (forall j, (j < length l)%nat -> nth j l 0 <= nth r l 0) /\
+  (forall j, (j < r)%nat -> nth j l 0 < nth r l 0).
+Proof.
+  destruct l as [|x t]; [congruence|]. intros _. unfold argmax_first.
+  change (x :: t) with ([x] ++ t). change 1%nat with (length [x]).
+  apply argmax_from_inv; cbn [length nth]; try lia; auto.
+  intros j Hj. replace j with O by lia. lra.
+Qed.
+
+Lemma greedy_is_argmax_lemma c s : s_online s <> [] ->
+  let a := greedy c s in
+  (a < length (s_online s))%nat /\
+  (forall a', (a' < length (s_online s))%nat ->
+     qvalue c (nth a' (s_online s) []) <= qvalue c (nth a (s_online s) [])) /\
+  (forall a', (a' < a)%nat -> qvalue c (nth a' (s_online s) []) < qvalue c (nth a (s_online s) [])).
+Proof.
+  intro H. unfold greedy.
+  assert (H' : map (qvalue c) (s_online s) <> []) by (destruct (s_online s); [congruence|discriminate]).
+  pose proof (argmax_first_spec _ H') as A. cbv zeta in A. rewrite map_length in A.
+  destruct A as (A1 & A2 & A3). cbv zeta.
+  assert (Q0 : qvalue c [] = 0) by reflexivity.
+  repeat split; auto.
+  - intros a' Ha. specialize (A2 a' Ha). rewrite <- Q0 in A2. rewrite !map_nth in A2. exact A2.
+  - intros a' Ha. specialize (A3 a' Ha). rewrite <- Q0 in A3. rewrite !map_nth in A3. exact A3.
+Qed.
+
+(* ------------------------------------------------------------------------------------------ *)
+(* the behaviour before c92d5ae: b not clamped, its float32 value slightly above N-1            *)
+(* (51 atoms on [0, 13.1]: float32 gives b(v_max) = 50 + 2^-18)                                 *)
+(* ------------------------------------------------------------------------------------------ *)
+Definition b_float_witness : Q := 13107201 # 262144.
+
+Lemma unclamped_float_b_refuted_lemma :
+  inject_Z 50 < b_float_witness /\
+  project_flat_b 51 [[(b_float_witness, 1)]] = None /\
+  exists flat, project_flat_b 51 [[(b_float_witness, 1)]; [(0, 1)]] = Some flat /\
+               ~ Qsum (row_slice 51 0 flat) == 1 /\ ~ Qsum (row_slice 51 1 flat) == 1.
+Proof.
+  split; [reflexivity|]. split; [vm_compute; reflexivity|].
+  eexists. split; [vm_compute; reflexivity|]. split; vm_compute; discriminate.
+Qed.
